@@ -45,7 +45,7 @@ U12a(e) == e.upanics = 0
 U12b(e) == e.done => e.result \in {"none", "ok", "timeout", "closed", "no_runtime", "cancelled"}
 \* (a timed get on a pool without runtime is refused as NoRuntimeSpecified whatever the pool's state)
 U12c(e) == (e.done /\ e.late /\ e.op \in {"get", "remove", "add"}) => e.result \in {"closed", "cancelled", "no_runtime"}
-U12d(e) == e.closeret =>
+U12d(e) == (e.closeret /\ ~e.poolgone) =>
               /\ e.closed /\ e.sclosed
               /\ ((e.quiescent /\ e.nq >= 0) => (e.nq = 0 /\ e.blocked_get = 0 /\ e.blocked_add = 0))
 U12e(e) == (e.k = "probe" /\ e.p_got >= 0 /\ e.closed) =>
